@@ -27,7 +27,9 @@ CLAIMS = {
     "C02": ("proof",
             "Coq (CrashFacts): for the commit I/O order the translator reads from write_data, every kill prefix and every power-loss "
             "image (any subset of un-synced writes, torn writes, torn header invalid) selects the old or the new header with all of its "
-            "pages intact, given copy-on-write (proved from the page-lifecycle contract, PLFacts.commit_cow); the order and the contract "
+            "pages intact, given copy-on-write (proved from the page-lifecycle contract, PLFacts.commit_cow, and DISCHARGED for the engine "
+            "model: EngineCow.engine_commit_crash_safe shows every commit of Engine.v satisfies the premise, so the crash theorems apply to "
+            "every engine transaction); the order and the contract "
             "are tied to the code by strace traces and per-commit contract validation; images built from real bytes are opened by the "
             "library and the model.",
             "premise NoTornCollision (torn header is not a valid header) is evaluated on every torn image; fsync/page-cache semantics "
@@ -75,7 +77,8 @@ CLAIMS = {
             "Coq (PLFacts.accept_BeginW_same / accept_Rollback_same; Spec): beginning and abandoning a writer is the identity on the "
             "shared state; in the reference an erroring call leaves the state unchanged by definition and every mutator on a read-only "
             "transaction returns ReadOnlyTx; correspondence: whole-file hash before/after every dropped transaction, reopen, read-only "
-            "transaction and erroring call; strace shows no write/fallocate outside commits.",
+            "transaction and erroring call; strace shows no write/fallocate outside commits. Engine model: close + reopen changes neither the "
+            "data nor its meaning and is invisible to the next writer (EngineReopen.run_tx_reopen).",
             "file-hash and strace observations are the tie to the code", "Coq lemmas + file-hash / strace differential", "6/C06"),
     "C07": ("translation_validation",
             "Inside write transactions the full read API is compared with the extracted reference after every single mutation; the "
@@ -97,7 +100,10 @@ CLAIMS = {
             "reader everything is released; pinned pages are retained; reopen keeps free + pending; plateau bound np <= max(np0, 2+2M+K) "
             "for any number of commits under the stated per-commit hypothesis (proved for the contract level; multi-page fragmentation "
             "has no closed bound: there the statement is alloc_complete); the free-list model is replayed event-exact against the library; "
-            "long runs must plateau.",
+            "long runs must plateau. Engine model (EngineNoLeak, EngineReaders*, EngineReopen): in every state a history of transactions, "
+            "reader begins / ends and reopens reaches, the ids recorded on the free-list page are exactly the pages no live node uses "
+            "(nothing freed is lost), pages stay pending only while a reader older than their batch is open, the first writer after the "
+            "last reader releases every batch, and reopen keeps every free and pending id.",
             "plateau hypothesis grows_only_when_empty follows from alloc_complete only for single-page allocations; fragmentation of "
             "multi-page runs is measured (series in the evidence), not bounded by a theorem",
             "Coq theorems on the transliterated allocator + event-exact replay + long-run high-water series", "6/C10"),
@@ -149,7 +155,10 @@ CLAIMS = {
             "mode never rejects; growth runs cross >= 3 extension steps; every builder value 1024..1100 (+ odd large) works or is refused "
             "cleanly in both profiles. Coq (CfgFacts): the builder accepts exactly valid_cfg (from the GENERATED guards) and exactly those "
             "keep every page structure 8-byte aligned; the pinned builder without the alignment guard is refuted; CheckFacts: the model of "
-            "DB::check (compared with the library's verdict on every snapshot) accepts every file the file checker accepts.",
+            "DB::check (compared with the library's verdict on every snapshot) accepts every file the file checker accepts; engine model: "
+            "EngineCorollaries.page_size_irrelevant (two page sizes, same transactions, same committed contents) and "
+            "EngineFileImage.history_inv_check (inv_check and the model of DB::check accept the complete file image of every reachable "
+            "state, so strict mode cannot reject the engine's commits).",
             "the equality library = reference per configuration is validated, not proved (inherits C01's unproved write path); page sizes "
             ">= 2^24 and initial files > 80 MB are not exercised",
             "configuration-grid differential against the extracted reference + Coq lemmas on the generated builder guards", "6/C16"),
